@@ -53,6 +53,16 @@ def vol_check(kind, case, rec):
     spec = case["mesh"]
     mesh, info = gm.build(spec)
     rec.nontrivial = nontrivial_mesh(spec, mesh)
+    if spec["jseed"] % 3 == 1:
+        # earlier in the session another region of the same template was used for post-processing (the inverse scheme of its
+        # quadrature was asked for, as tools.extrapolate does): templates share their default scheme objects, later regions must
+        # not be affected
+        with warnings.catch_warnings():
+            warnings.simplefilter("ignore")
+            prev = gm.region(mesh, info)
+        if hasattr(prev.quadrature, "inv"):
+            prev.quadrature.inv()
+            rec.label("after-quadrature.inv()-on-another-region-of-the-template")
     with warnings.catch_warnings(record=True) as wlist:
         warnings.simplefilter("always")
         region = gm.region(mesh, info)
@@ -106,6 +116,15 @@ def vol_check(kind, case, rec):
         other.update(points=np.array(mesh.points), callback=r0.reload)
     rec.close("reload-after-mesh-update=fresh-region", same_arrays(r0, region, names), 1e-14)
     rec.require("reload-keeps-the-mesh-object", r0.mesh is other)
+    # the other documented route: points changed in place, then a plain reload() without arguments
+    other2 = mesh.copy()
+    other2.update(points=np.array(mesh.points) @ B.T)
+    with warnings.catch_warnings():
+        warnings.simplefilter("ignore")
+        r1 = gm.region(other2, info)
+        other2.points[:] = np.array(mesh.points)
+        r1.reload()
+    rec.close("plain-reload-after-in-place-point-update=fresh-region", same_arrays(r1, region, names), 1e-14)
     if not kind.startswith("lagrange") and kind != "line":
         if hasattr(region.element, "hessian"):  # elements without second derivatives do not offer hess=True
             fresh_h = gm.region(mesh, info, hess=True)
